@@ -220,7 +220,8 @@ a violation of a listed statement was first given corpus until a check reported 
 | registered unfolder / `Expander` ignored for `[]T` / `map[string]T` struct fields of primitive kind; unfolder registered for a pointer type | A, B, E, F | real; C13's statement does not mention custom unfolders (my check covers more than the statement there, but not this) | — | not repaired (see §8) |
 | UBJSON no-op where a field name is expected is rejected | C | the draft is ambiguous; no longer judged either way (`ubj-noop-insertions`) | — | — |
 | 13 bytes denoting 2⁶³ payload-less elements | C | documented exclusion (§6.3, C03) | — | — |
-| json / cborl parsers and all `Decoder`s deliver further events when called *again* after a visitor error; decoders drop a non-EOF read error delivered with data; json encoder drops errors of a sink that fails only once | C, D | the first arguably falls under C16's second sentence; my C16 judges the failing call only (see §8); the others are outside the statements (persistent failures, `io.EOF`) | — | not repaired |
+| json / cborl `Parser.Write` and all `Decoder`s deliver further events when called *again* after a visitor error | D | genuine (C16, second sentence; my check had judged the failing call only) | C16 (one more call after the failing one) | `a22db03` |
+| decoders drop a non-EOF read error delivered with data; json encoder drops errors of a sink that fails only once | C, D | outside the statements (C18: `io.EOF`; C16: a sink that keeps failing) | — | — |
 | JSON lexical leniency (`0123`, `+1`, `.5`, `\'`, `\v` as blank); `OnByte(b >= 128)` written as UBJSON char; invalid UTF-8 copied into CBOR / UBJSON strings | C, D | C04 demands rejection of wrong *structure* only; C01 demands byte-exact strings; char: my reference follows the library's data model (§4) | — | — |
 | inlined `*Self` field: stack overflow when the folder is compiled | A, F | real, pathological; not explored | — | not repaired (see §8) |
 
